@@ -4,14 +4,16 @@ import connlane as L
 MC = {"quick": [("mc-routing", "MCLdapConn", "MCConn_c01_quick.cfg", 600, 8)],
       "thorough": [("mc-routing", "MCLdapConn", "MCConn_c01_thorough.cfg", 3000, 12),
                    ("mc-3ops", "MCLdapConn", "MCConn3_roles.cfg", 3000, 12)]}
-PROFILES = {"quick": [("plain", 120), ("orphans", 120), ("burst", 120), ("long", 40)],
-            "thorough": [("plain", 1500), ("orphans", 1500), ("burst", 1500), ("long", 400), ("mixed", 1500)]}
+PROFILES = {"quick": [("plain", 120), ("orphans", 120), ("burst", 120), ("long", 40), ("drops", 120)],
+            "thorough": [("plain", 1500), ("orphans", 1500), ("burst", 1500), ("long", 400), ("mixed", 1500), ("drops", 1500)]}
 SCRIPTS = {"quick": ("GenConn_len4.cfg", 8), "thorough": ("GenConn_len5.cfg", 10)}
 RULE = ("model: every interleaving of two operations of any kind (three with fixed roles in thorough) with the server answering in any "
         "order, orphan responses, ID counter at 0 and next to the wrap point; implementation: seeded scenarios with 2-8 concurrent "
         "operations over cloned handles, responses in random order and random chunking, unsolicited responses, bursts of stimuli "
         "without settling (seeded select! races); every returned token must be the one the server sent under the caller's own "
-        "wire ID, in order; a scenario is non-trivial when >= 2 operations overlap")
+        "wire ID, in order; a scenario is non-trivial when >= 2 operations overlap; profile 'drops': callers walk away (a dropped "
+        "future, a stream dropped without finish()) so that late responses for them arrive while other operations are running - "
+        "a routing entry the model keeps, the code has dropped and whose caller still listens is `effect:lost-route`")
 
 
 def run(tier):
